@@ -129,7 +129,7 @@ def check(pm: ProgramModel, ctx: Ctx) -> None:
         for nm, tree in stress_trees(mb):
             validate(ctx, pm, writer, f"{P}-CTC", f"shape:{nm}", ctc_model(mb, [("c", tree)]), f"constraint shape {nm}")
         validate(ctx, pm, writer, f"{P}-CTC", "single-literal", ctc_model(mb, [("c", n("B"))]), "single-literal constraint")
-        for cls_ in ("space", "punct", "unicode"):
+        for cls_ in ("space", "punct", "unicode", "opword", "keyword"):
             validate(ctx, pm, writer, f"{P}-ONEENC", f"name:{cls_}", name_model(mb, NAME_CLASSES[cls_]),
                      f"feature named {NAME_CLASSES[cls_]!r}", fragment=(writer == "SPLOTWriter"))
         ctx.analysed[f"{P}:kind-classes"] = ndone
